@@ -235,6 +235,10 @@ def dict_builder_entries(cx: Cx, fn: FunctionInfo, table: str, ob_id: str) -> li
                     out.append(
                         Entry(table, frozenset(f for r, f in kf if r != "?"), any(r == "?" for r, _ in kf), v, _value_field(prov, v), _conds(ectx, s, ev), where(fn, ev.line), fn.qualname, ev.line, rec)
                     )
+                elif (fk := _fromkeys_update(ev, t)) is not None:
+                    keys, v = fk
+                    kf = iter_fields(prov, keys)
+                    out.append(Entry(table, frozenset(f for r, f in kf if r != "?"), any(r == "?" for r, _ in kf), v, _value_field(prov, v), _conds(ectx, s, ev), where(fn, ev.line), fn.qualname, ev.line, _iter_record(prov, keys)))
                 else:
                     raise AnalysisError(f"unrecognised mutation of the result dict in {fn.qualname} at line {ev.line}", ob_id)
         elif op(t) == "comp" and t[1] == "dict":
@@ -260,6 +264,35 @@ def dict_builder_entries(cx: Cx, fn: FunctionInfo, table: str, ob_id: str) -> li
     return list(seen.values())
 
 
+def _fromkeys_update(ev, target):
+    """``target.update(dict.fromkeys(KEYS, VALUE))`` -> (KEYS, VALUE)."""
+    c = ev.a
+    if ev.kind != "expr" or op(c) != "call" or callee_name(c) != "update" or op(c[1]) != "attr" or c[1][1] != target or len(c[2]) != 1 or c[3]:
+        return None
+    a = c[2][0]
+    if op(a) == "call" and a[1] == ("attr", ("builtin", "dict"), "fromkeys") and len(a[2]) == 2 and not a[3]:
+        return a[2][0], a[2][1]
+    return None
+
+
+def iter_fields(prov: "Prov", it) -> set:
+    """Record fields the ELEMENTS of an iterable term denote."""
+    out = set()
+    for a in prov.elems(it):
+        if op(a) == "attr" and a[2] in CANON:
+            out.add((a[1], a[2]))
+        elif op(a) == "elemof" and op(a[1]) == "attr" and a[1][2] in LISTS:
+            out.add((a[1][1], a[1][2]))
+        else:
+            out.add(("?", a))
+    return out
+
+
+def _iter_record(prov: "Prov", it):
+    recs = {r for r, _ in iter_fields(prov, it)}
+    return next(iter(recs)) if len(recs) == 1 and "?" not in recs else None
+
+
 def constructor_tables(cx: Cx, ob_id: str) -> dict[str, list[Entry]]:
     """Entries of each derived table as built by ``Converter.__init__``."""
     init = cx.fn(f"{CONV}.__init__", ob_id)
@@ -280,6 +313,17 @@ def constructor_tables(cx: Cx, ob_id: str) -> dict[str, list[Entry]]:
                 for e in tables[name]:
                     e.conditions = e.conditions + s.must_guards(ev)
                 continue
+        if op(v) == "call" and callee_name(v) == "StringTrie" and not v[2] and not v[3]:
+            # empty trie filled by one .update(<table>) in the constructor
+            ups = [e2.a for e2, _ in s.distinct_events("expr") if op(e2.a) == "call" and callee_name(e2.a) == "update" and e2.a[1][1] == tgt and len(e2.a[2]) == 1]
+            if len(ups) == 1:
+                src = ups[0][2][0]
+                if op(src) == "attr" and src[1] == ("param", self_name):
+                    alias[name] = src[2]
+                    continue
+                if op(src) == "call" and op(src[1]) == "func":
+                    tables[name] = dict_builder_entries(cx, cx.model.functions[src[1][1]], name, ob_id)
+                    continue
         if op(v) == "call" and callee_name(v) == "StringTrie" and len(v[2]) == 1:
             src = v[2][0]
             if op(src) == "attr" and src[1] == ("param", self_name):
@@ -324,6 +368,16 @@ def index_method_entries(cx: Cx, fn: FunctionInfo, ob_id: str) -> dict[str, list
             )
     for ev, ctx in s.distinct_events("expr"):
         c = ev.a
+        if op(c) == "call" and callee_name(c) == "update" and op(c[1]) == "attr" and op(c[1][1]) == "attr" and c[1][1][1] == ("param", self_name):
+            fk = _fromkeys_update(ev, c[1][1])
+            if fk is not None:
+                table = c[1][1][2]
+                keys, v = fk
+                kf = iter_fields(prov, keys)
+                out.setdefault(table, []).append(
+                    Entry(table, frozenset(f for r, f in kf if r != "?"), any(r == "?" for r, _ in kf), v, _value_field(prov, v), _conds(ctx, s, ev), where(fn, ev.line), fn.qualname, ev.line, _iter_record(prov, keys))
+                )
+                continue
         if op(c) == "call" and callee_name(c) == "setdefault" and op(c[1]) == "attr" and op(c[1][1]) == "attr" and c[1][1][1] == ("param", self_name) and len(c[2]) == 2:
             table = c[1][1][2]
             kf = prov.fields(c[2][0])
@@ -833,6 +887,16 @@ def dict_items(s: Summary | None, t) -> dict | None:
     d = t[4] if op(t) == "new" and len(t) > 4 else t
     if op(t) == "new" and t[1] != "dict":
         return None
+    # dict(zip((k1, k2, ...), X)) / dict(k1=..., k2=...)
+    if op(d) == "call" and d[1] == ("builtin", "dict"):
+        if not d[2] and d[3] and all(k is not None for k, _ in d[3]):
+            return {k: v for k, v in d[3]}
+        if len(d[2]) == 1 and not d[3] and op(d[2][0]) == "call" and d[2][0][1] == ("builtin", "zip") and len(d[2][0][2]) == 2:
+            keys, vals = d[2][0][2]
+            if op(keys) in ("tuple", "list") and all(is_const(k) for k in keys[1]):
+                if op(vals) in ("tuple", "list") and len(vals[1]) == len(keys[1]) and not any(op(v) == "star" for v in vals[1]):
+                    return {k[1]: v for k, v in zip(keys[1], vals[1])}
+                return {k[1]: ("item", vals, ("const", i)) for i, k in enumerate(keys[1])}
     if op(d) != "dict":
         return None if op(t) != "new" else {}
     out = {}
@@ -946,3 +1010,53 @@ def csv_agreement(ob: Ob, wfn, rfn, wcall, rcall, what: str) -> None:
         )
     if q is not None and "QUOTE_NONE" in show(q) and wd.get("quoting") == rd.get("quoting") and "escapechar" not in wd:
         pass
+
+
+def guard_atoms(guards) -> list[tuple]:
+    """Atomic facts (term, polarity) implied by the guards of a path: a true conjunction gives its
+    conjuncts, a false disjunction the negation of its disjuncts; comparisons are canonicalised."""
+    from .summ import _len_truth
+    from .terms import op as _op
+
+    out = []
+
+    def add(t, pol):
+        while _op(t) in ("not", "truth"):
+            if _op(t) == "not":
+                pol = not pol
+            t = t[1]
+        if _op(t) == "and" and pol:
+            for x in t[1]:
+                add(x, True)
+            return
+        if _op(t) == "or" and not pol:
+            for x in t[1]:
+                add(x, False)
+            return
+        neg = {"is not": "is", "!=": "==", "not in": "in"}
+        if _op(t) == "cmp" and t[1] in neg:
+            t, pol = ("cmp", neg[t[1]], t[2], t[3]), not pol
+        t, pol = _len_truth(t, pol)
+        out.append((t, pol))
+
+    for g in guards:
+        if g.kind == "guard":
+            add(g.a, g.b)
+    return out
+
+
+def fewer_than_two(t, pol, coll=None):
+    """Does the atom (t, pol) say that a collection has fewer than two elements?  Returns the collection."""
+    from .terms import is_const as _c, op as _op
+
+    if _op(t) != "cmp":
+        if pol is False and (coll is None or t == coll):
+            return t  # `not xs`: empty
+        return None
+    o, l, r = t[1], t[2], t[3]
+    if _op(l) == "call" and l[1] == ("builtin", "len") and _c(r) and isinstance(r[1], int):
+        x, n = l[2][0], r[1]
+        small = (o == "<" and n <= 2 and pol) or (o == "<=" and n <= 1 and pol) or (o == ">" and n >= 1 and not pol and n <= 1) or (o == ">=" and n <= 2 and not pol) or (o == "==" and n in (0, 1) and pol)
+        if small and (coll is None or x == coll):
+            return x
+    return None
